@@ -58,13 +58,14 @@ var profiles = map[string]*Profile{
 }
 
 type Gen struct {
-	r       *rand.Rand
-	p       *Profile
-	dynArr  bool
-	names   []string
-	heavy   Expr  // the shared Heavy(...) atom of this program, if any
-	sharedB Expr  // a boolean sub-expression shared between rules
-	used    []loc // integer locations read by the conditions generated so far
+	r         *rand.Rand
+	p         *Profile
+	dynArr    bool
+	names     []string
+	heavy     Expr    // the shared Heavy(...) atom of this program, if any
+	sharedB   Expr    // a boolean sub-expression shared between rules
+	sharedSet *Action // a setter call statement that several rules of the program use verbatim
+	used      []loc   // integer locations read by the conditions generated so far
 }
 
 func (g *Gen) chance(p float64) bool { return g.r.Float64() < p }
@@ -289,7 +290,16 @@ func (g *Gen) genAction(self string) *Action {
 	case c < g.p.PRetract+g.p.PComplete:
 		return &Action{Kind: "complete"}
 	case c < g.p.PRetract+g.p.PComplete+g.p.PSetter:
-		return &Action{Kind: "set", Name: []string{"SetX", "SetY"}[g.pick(2)], E: g.exactInt(1)}
+		// (the same call statement in several rules is ONE node of the blueprint: every rule's copy must stay wired in an instance)
+		if g.sharedSet != nil && g.chance(0.5) {
+			cp := *g.sharedSet
+			return &cp
+		}
+		a := &Action{Kind: "set", Name: []string{"SetX", "SetY"}[g.pick(2)], E: g.exactInt(1)}
+		if g.sharedSet == nil {
+			g.sharedSet = a
+		}
+		return a
 	}
 	if g.chance(g.p.PRepoint) {
 		return &Action{Kind: "repoint"}
@@ -456,7 +466,7 @@ func (g *Gen) Program() *Program {
 	for i := 0; i < n; i++ {
 		g.names = append(g.names, fmt.Sprintf("R%d", i))
 	}
-	g.heavy, g.sharedB = nil, nil
+	g.heavy, g.sharedB, g.sharedSet = nil, nil, nil
 	if g.chance(g.p.PHeavy) || g.p.OneHeavy {
 		ls := g.intLocs()
 		l := ls[g.pick(len(ls))]
